@@ -170,7 +170,9 @@ def rc_tlc_phase(ck, thorough):
     rnd = random.Random(ck.seed * 1000003 + 131)
     for k, it in enumerate(items[n_probe:]):
         it['id'] = k
-        it['variant'] = {'container': {'c': rnd.choice(['dict', 'list'])}, 'exit': rnd.choice(['hold', 'hold', 'drop'])}
+        it['variant'] = {'container': {'c': rnd.choice(['dict', 'list'])}, 'exit': rnd.choice(['hold', 'hold', 'drop']),
+                         # the handle table of one client kept inside a SECOND server process (binder: VaultTab)
+                         'vault': [['p1'], ['p2']][k % 2] if k % 3 == 1 else []}
     return items
 
 
